@@ -47,3 +47,31 @@ Theorem C02_szdd_no_lifetime_error : forall (o : oracle) junk fuel,
   bad (snd (run o mon0 (script_decompress junk fuel))) = false /\ bad (snd (run o mon0 (script_open_extract junk fuel))) = false.
 Proof. intros o junk fuel. split; [apply (szdd_script_decompress_clean o junk fuel)|apply (szdd_script_open_extract_clean o junk fuel)]. Qed.
 Print Assumptions C02_szdd_no_lifetime_error.
+
+(* ---- the LZX port (Model/Lzx.v, tied to lzxd.c by the decoder-level correspondence) with ghost bounds checks: the model fails with
+        status OOB wherever the C code would store or copy outside window[0..window_size) - the literal store, both loops of a match
+        copy, the raw copy of an uncompressed block - or read a frame that does not fit the window / the E8 buffer ---- *)
+From Coq Require Import ZArith.
+From MSP Require Import Base.Src Props.OabSample.
+From MSP Require Model.Lzx Proofs.LzxSafe.
+(* the block loop of a frame that fits the window never leaves it: every block type, every Huffman code, every match (the only
+   accepted overrun of a run is one the block has bytes for, and then the frame is complete), every input, hint and end-of-input rule *)
+Theorem C02_lzx_block_loop_in_bounds : forall rule hint fuel todo s i r i', Lzx.wposn s <= Lzx.wsize s ->
+  ((0 < todo)%Z -> (Z.of_N (Lzx.wposn s) + todo <= Z.of_N (Lzx.wsize s))%Z) ->
+  ideal rule hint (Lzx.todo_loop fuel todo s) i = (SVal r, i') ->
+  match r with inl e => e <> Lzx.OOB | inr (_, s') => Lzx.wposn s' <= Lzx.wsize s' end.
+Proof. exact LzxSafe.todo_loop_never_oob. Qed.
+Print Assumptions C02_lzx_block_loop_in_bounds.
+(* whole streams from lzxd_init, every legal window size, every reset interval, DELTA or not, any reference data, any input, any
+   sequence of requests - while the decoder does not know the output length (lzx->length = 0: CAB folders before their last block;
+   with a known length the last frame is short, which this theorem does not cover: see DESIGN.md) *)
+Theorem C02_lzx_never_out_of_bounds : forall wb ri delta ref inp reqs sts out, 15 <= wb <= 25 ->
+  Lzx.lzx_run wb ri 0 delta ref inp reqs = (sts, out) -> Forall (fun st => st <> Lzx.OOB) sts.
+Proof. exact LzxSafe.lzx_run_safe. Qed.
+Print Assumptions C02_lzx_never_out_of_bounds.
+(* the ghost checks bite: from a state outside the invariant (window_posn = window_size at the start of a frame) the same stream
+   makes the model go out of bounds; from lzxd_init it decodes *)
+Example C02_lzx_ghost_checks_bite :
+  fst (fst (Lzx.lzx_call 0 LzxSafe.bad_state {| irest := s_stream ++ s_pad ++ [0; 0]; iout := [] |} 10)) = Lzx.OOB /\
+  fst (Lzx.lzx_run 17 0 (N.of_nat (length s_data)) true [] (s_stream ++ s_pad) [10]) = [0].
+Proof. split; vm_compute; reflexivity. Qed.
